@@ -1,6 +1,24 @@
 (* Correspondence judge for C11: a case is a history of operations on one Namespace (starting empty)
    with, for every step, the observed output and the observed __dict__ tree (stored names). *)
-From JV Require Import Lib.Base Model.Ns Model.NsRun Model.NsGuard Spec.NestedDict Spec.NestedDictRun Gen.C11Clash.
+From JV Require Import Lib.Base Model.Ns Model.NsRun Model.NsGuard Model.C11NsFixed Spec.NestedDict Spec.NestedDictRun Gen.C11Clash.
+
+(* ---- short names for the generated case files (parsing literal code-point lists dominates coqc time) ---- *)
+Definition n_a : str := [97]%N.
+Definition n_b : str := [98]%N.
+Definition n_x : str := [120]%N.
+Definition n_y : str := [121]%N.
+Definition n_c : str := [99]%N.
+Definition n_d : str := [100]%N.
+Definition n_items : str := [105;116;101;109;115]%N.
+Definition n_keys : str := [107;101;121;115]%N.
+Definition n_get : str := [103;101;116]%N.
+Definition n_update : str := [117;112;100;97;116;101]%N.
+Definition n_pop : str := [112;111;112]%N.
+Definition n_clone : str := [99;108;111;110;101]%N.
+Definition n_values : str := [118;97;108;117;101;115]%N.
+Definition n_as_dict : str := [97;115;95;100;105;99;116]%N.
+Definition mk_ (s : str) : str := ZW :: s.   (* a clash-marked stored name *)
+Definition dk (l : list str) : str := match l with [] => [] | x :: r => fold_left join_dot r x end.   (* dotted key *)
 
 Fixpoint val_eqb (fuel : nat) (a b : val) : bool :=
   match fuel with
@@ -35,7 +53,17 @@ Fixpoint all2 {A B} (f : A -> B -> bool) (a : list A) (b : list B) : bool :=
   | _, _ => false
   end.
 
-Record case := { c_ops : list op; c_obs : list (out * alist) }.
+(* The observed __dict__ tree after a step is given as None when it is the same tree as before the step
+   (the history starts from the empty Namespace): read-only and failing steps need not repeat it. *)
+Fixpoint expand_obs (prev : alist) (l : list (out * option alist)) : list (out * alist) :=
+  match l with
+  | [] => []
+  | (o, None) :: r => (o, prev) :: expand_obs prev r
+  | (o, Some st) :: r => (o, st) :: expand_obs st r
+  end.
+
+Record case := { c_ops : list op; c_steps : list (out * option alist) }.
+Definition c_obs (c : case) : list (out * alist) := expand_obs [] (c_steps c).
 
 Definition agree_model (c : case) : bool :=
   list_eqb (fun (m o : out * alist) => out_eqb (fst m) (fst o) && veq (VNs (snd m)) (VNs (snd o)))
@@ -53,10 +81,38 @@ Definition agree_spec (c : case) : bool :=
      1 = some addressed path met a dict-valued leaf (known finding path-through-dict);
      2 = ill-formed key or value (never generated: would be reported if the spec disagrees);
      3 = history uses update(namespace) / as_dict / Namespace(dict), which the theorem does not cover
-         (model- and spec-agreement are still demanded of every such case) *)
+         (model- and spec-agreement are still demanded of every such case).
+   A finding class only explains an observation that the faithful model reproduces: a class-1 history on which the
+   implementation does something ELSE than the modelled defect gets class 9, which is not a listed finding (a spec
+   failure there is reported, not absorbed; with the repaired code the spec holds there and nothing is reported). *)
 Definition judge1 (c : case) : verdict :=
+  let k := hist_class clash_names (c_ops c) in
   {| v_model := agree_model c;
-     v_class := hist_class clash_names (c_ops c);
+     v_class := if N.eqb k 1 && negb (agree_model c) then 9%N else k;
      v_spec := agree_spec c |}.
 
 Definition judge (cs : list case) := judge_all judge1 cs.
+
+(* ---- after fixes/C11-path-through-dict.patch has been applied -------------------------------------------------
+   Set JUDGE = "judge_fixed" in tie/props/c11.py (and turn the `open:` line of known_findings/C11.txt into `fixed:`):
+   model agreement is then judged against the model of the patched code (Model/C11NsFixed.v), also on histories
+   through a dict-valued leaf. The classes are unchanged (class 1 is still the hypothesis missing from
+   ns_refines_dict), but class 1 is no longer a listed finding: a spec failure there is a violation. *)
+Definition agree_model_fixed (c : case) : bool :=
+  list_eqb (fun (m o : out * alist) => out_eqb (fst m) (fst o) && veq (VNs (snd m)) (VNs (snd o)))
+           (run_fixed clash_names [] (c_ops c)) (c_obs c).
+
+Definition judge1_fixed (c : case) : verdict :=
+  {| v_model := agree_model_fixed c;
+     v_class := hist_class clash_names (c_ops c);
+     v_spec := agree_spec c |}.
+
+Definition judge_fixed (cs : list case) := judge_all judge1_fixed cs.
+
+(* does the model of the patched code answer a history exactly as the nested dictionary (used by the
+   kernel-evaluated product theorem of Properties/C11.v) *)
+Definition fixed_refines_b (clash : list str) (ops : list op) : bool :=
+  all2 (fun (s : out * sdict) (m : out * alist) =>
+          out_eqb (fst s) (unmark_out (fst m))
+          && veq (node_val (Branch (snd s))) (unmark_val (VNs (snd m))))
+       (run_spec [] ops) (run_fixed clash [] ops).
